@@ -502,13 +502,15 @@ class C05(Check):
     trusted_base = (
         'hand-written model lean/CssVerif/Model/Tok.lean of Tokenizer.tokenize / _repl / helper.normalize / the '
         'error-report suffix, tied to the source by the differential correspondence of this run',
+        'hand-written model lean/CssVerif/Model/TokPush.lean of the generator with push-back (self._pushed), tied by the '
+        'correspondence of consumer scripts of this run',
         'translator tools/gen/c05_productions.py + tools/gen/relib.py (regex text -> Re term through CPython\'s own '
         're._parser); cross-checked each run against Tokenizer._expand_macros and the compiled matchers',
         'sre-faithfulness of Re.first (list-of-successes semantics) — validated each run by the Re-level '
         'differential on every generated pattern',
     )
     assumptions = (
-        'Tokenizer._pushed is empty (tokens pushed back by a caller are outside tokenize; see C12)',
+        'the consumer calls Tokenizer.push only while the generator is suspended at a yield (Model/TokPush.lean)',
         'str.lower() produces ASCII only from A-Z, U+212A and U+0130 (checked exhaustively over all code points '
         'each run); its results are compared with ASCII words only',
         'int(x, 16) on hex digits followed by ASCII white space',
